@@ -1,6 +1,6 @@
 """C13 - IF / IFS / IFERROR choose the right branch and contain errors.
 
-Hypothesis: nests of IF (2/3 args), IFS (1-3 pairs), IFERROR up to depth 3; conditions are references, comparisons
+Hypothesis: nests of IF (2/3 args), IFS (1-3 pairs), IFERROR up to depth 5; conditions are references, comparisons
 of references or constants; branches are distinct numbers, texts, failing expressions (1/0, a reference to an
 error-valued cell) or further nests; the nest is also embedded as an operand / argument of other constructs.
 Every truth assignment of the condition cells (true / zero / blank) is enumerated through overrides.
@@ -23,7 +23,7 @@ RULE = ('one workbook per generated nest (plus embedding variants), evaluated un
         'distinct = distinct (formula text, assignment)')
 ASSUMPTIONS = ['IFS with an odd number of arguments and text conditions are not generated',
                'when the chosen branch itself fails, any error outcome (error string or exception) is accepted',
-               'nesting depth <= 3 (the parser is exponential in nesting depth)']
+               'nesting depth <= 5']
 
 COND_CELLS = ['A1', 'A2', 'A3', 'A4']
 ERR_CELL = 'E1'       # holds #N/A
@@ -286,7 +286,9 @@ def strategy():
     d1 = nest(leafval)
     d2 = nest(st.one_of(leafval, d1))
     d3 = nest(st.one_of(leafval, d1, d2))
-    anynest = st.one_of(d1, d2, d2, d3)
+    d4 = nest(st.one_of(leafval, d2, d3))
+    d5 = nest(st.one_of(leafval, d3, d4))
+    anynest = st.one_of(d1, d2, d2, d3, d3, d4, d5)
 
     def embed(n, how):
         if how == 0:
